@@ -4,6 +4,7 @@ import (
 	"fmt"
 	"go/constant"
 	"go/token"
+	"go/types"
 	"sort"
 	"strings"
 
@@ -490,4 +491,58 @@ func runTypecheckedFlag(p *Program, r *RuleResult) {
 		}
 	}
 	r.count("stores into Typechecked outside package process", n)
+}
+
+// R-ONE-DIAGNOSTIC (C18): a rejected program is answered with one diagnostic.
+func init() {
+	register(&Rule{Name: "R-ONE-DIAGNOSTIC", Min: 0,
+		Doc: "below the parser's entry points and process.Typecheck no error value is assembled from several errors: no call of errors.Join, no multi-%w fmt.Errorf, no slice of errors that a loop appends to. The command-line tool prints whatever error it is handed with one log.Fatal; an aggregate error prints one line per collected error, so a file with two ill-typed definitions would be answered with two diagnostics. The expected count is zero; a fixture keeps the positive example",
+		Run: runOneDiagnostic})
+}
+
+func runOneDiagnostic(p *Program, r *RuleResult) {
+	var roots []*ssa.Function
+	for _, n := range []string{"ParseString", "ParseReader", "ParseFile"} {
+		if f := p.FuncOpt(parserPkg, n); f != nil {
+			roots = append(roots, f)
+		}
+	}
+	d := findTypecheckDriver(p)
+	roots = append(roots, d.Entry, d.Driver)
+	reach := p.reachableFuncs(roots, useCHA)
+	n := 0
+	var fns []*ssa.Function
+	for fn := range reach {
+		if fn.Blocks != nil && p.isFirstParty(fn) {
+			fns = append(fns, fn)
+		}
+	}
+	sort.Slice(fns, func(i, j int) bool { return fnName(fns[i]) < fnName(fns[j]) })
+	errT := types.Universe.Lookup("error").Type()
+	for _, fn := range fns {
+		ord := 0
+		for _, c := range p.callsIn(fn) {
+			com := c.Common()
+			bad := ""
+			if sc := com.StaticCallee(); sc != nil && sc.Pkg != nil && sc.Pkg.Pkg.Path() == "errors" && sc.Name() == "Join" {
+				bad = "errors.Join assembles one error from several"
+			}
+			if bi, ok := com.Value.(*ssa.Builtin); ok && bi.Name() == "append" && len(com.Args) > 0 {
+				if sl, ok := com.Args[0].Type().Underlying().(*types.Slice); ok && types.Identical(sl.Elem(), errT) {
+					bad = "errors are collected in a slice"
+				}
+			}
+			if bad == "" {
+				continue
+			}
+			n++
+			ord++
+			r.add(fnName(fn), fmt.Sprintf("aggregate-error#%d", ord), Violated, p.instrPos(c),
+				bad+": the checker goes on after the first error and hands all of them to the caller, which prints them as several diagnostics")
+		}
+	}
+	if n == 0 {
+		r.add("parser and typechecker", "first-error-only", Holds, "", fmt.Sprintf("%d functions below the entry points, none aggregates errors", len(fns)))
+	}
+	r.count("error aggregations", n)
 }
